@@ -45,6 +45,7 @@ fn main() {
         "authdata-decode" => guarded(move || status::authdata_decode(&arg)),
         "cbor-bytes" => guarded(move || cbor::bytes(&hex(&arg))),
         "cbor-make-credential-request" => guarded(move || cbor::mc_request(&hex(&arg))),
+        "shipped-store" => guarded(move || ceremony::shipped_store(&arg)),
         "client-ceremonies" => guarded(move || client::sweep()),
         "ceremony" => guarded(move || ceremony::run(&arg)),
         "c18-trait" => ceremony::c18(&arg),
